@@ -19,6 +19,7 @@ import Jawk.Lemmas.F64RoundTrip
 import Jawk.Lemmas.ParseSer
 import Jawk.Lemmas.H17
 import Jawk.Lemmas.PrintSer
+import Jawk.Lemmas.Finite
 import Jawk.Props.Tables
 namespace Jawk.C02
 open Jawk RT
@@ -149,5 +150,45 @@ theorem printed_row_reread (o : JsonOpts) (v : JV) (hv : Ser.Parsed o v) (rest :
 theorem astral_is_conforming_but_different :
     Ser.Ser (.str [Char.ofNat 0x1F60, '0']) (utf8 (printJson {} (.str [Char.ofNat 0x1F600]))) :=
   PrintSer.astral_ascii_differs
+
+
+/-! ### computed values: no `NaN`, no `inf` (helper `Jawk/Lemmas/Finite.lean`)
+
+JSON has no spelling for a non-finite number.  Values read from the input are finite (the parser rejects numbers
+that overflow); for COMPUTED values the evaluator sends every arithmetic result through `from_finite`
+(`jnumFinite`): a result outside the double range is *nothing*, never `inf` or `NaN` (`(* 1e308 10 0)` = inf·0). -/
+
+/-- evaluation preserves finiteness, for every expression over the functions whose result is guarded by
+`from_finite` or not computed from a double at all (everything but `% abs ceil floor round`, whose model takes
+the unbounded integers and non-canonical doubles the real types cannot hold: see `computed_finite`) -/
+theorem computed_finite_guarded (orc : Oracles) (fuel : Nat) (e : Expr) (ctx : Ctx) (v : JV)
+    (ho : Finite.FiniteOrc orc) (he : Finite.FiniteE e) (hc : Finite.FiniteCtx ctx)
+    (hg : Finite.GuardedOnly e) (hd : ∀ nd ∈ ctx.defs, Finite.GuardedOnly nd.2)
+    (h : eval orc fuel e ctx = .ok (some v)) : Finite.FiniteV v :=
+  Finite.eval_finite_partial orc fuel e ctx v ho he hc hg hd h
+
+/-- for EVERY expression: whatever it evaluates to is finite, provided every intermediate number fits the types
+the real program has (u64 / i64 / canonical binary64 — `evalRep` is `eval` with that check and agrees with it
+unless the check fires; in the Rust program the check cannot fire, the types enforce it) -/
+theorem computed_finite (orc : Oracles) (fuel : Nat) (e : Expr) (ctx : Ctx) (v : JV)
+    (ho : Finite.FiniteOrc orc) (he : Finite.FiniteE e) (hc : Finite.FiniteCtx ctx)
+    (hrep : Finite.evalRep orc fuel e ctx ≠ .error .overflow)
+    (h : eval orc fuel e ctx = .ok (some v)) : Finite.FiniteV v :=
+  Finite.eval_finite orc fuel e ctx v ho he hc hrep h
+
+/-- the hypothesis of `computed_finite` is about the MODEL only: with unbounded naturals an array of 2^1024
+elements has a size whose `abs` is infinite -/
+theorem computed_finite_needs_representable :
+    ∃ (orc : Oracles) (fuel : Nat) (e : Expr) (ctx : Ctx) (v : JV),
+      Finite.FiniteOrc orc ∧ Finite.FiniteE e ∧ Finite.FiniteCtx ctx ∧ eval orc fuel e ctx = .ok (some v) ∧ ¬ Finite.FiniteV v :=
+  Finite.eval_finite_false
+
+/-- a selection keeps the whole row finite: the row that is built and the context handed to the next stage -/
+theorem selected_row_finite (orc : Oracles) (e : Expr) (ctx : Ctx) (name : Str) (r : Option JV)
+    (ho : Finite.FiniteOrc orc) (he : Finite.FiniteE e) (hc : Finite.FiniteCtx ctx)
+    (hrep : Finite.evalRep orc evalFuel e ctx ≠ .error .overflow)
+    (h : eval orc evalFuel e ctx = .ok r) :
+    Finite.FiniteCtx (ctx.withResult name r) ∧ Finite.FiniteV (ctx.withResult name r).build :=
+  Finite.selected_rows_finite orc e ctx name r ho he hc hrep h
 
 end Jawk.C02
